@@ -332,6 +332,7 @@ class Simulation(object):
         else:
             raise ValueError("Invalid 'method' for 'simulate_until_max_customers'.")
 
+        previous_time = None
         while check() < max_customers:
             old_check = check()
             next_active_node = self.event_and_return_nextnode(next_active_node)
@@ -345,7 +346,8 @@ class Simulation(object):
             previous_time = self.current_time
             self.current_time = next_active_node.next_event_date
 
-        self.wrap_up_servers(previous_time)
+        if previous_time is not None:
+            self.wrap_up_servers(previous_time)
 
         if progress_bar:
             remaining_time = max(max_customers - self.progress_bar.n, 0)
